@@ -169,7 +169,12 @@ struct Driver
 		String s = v.toString();
 		String s2 = v;
 		if (!(s == s2)) s = "<toString and (String) differ>";
-		return "{" + kv("ty", (int)v.type()) + ",\"isn\":" + isn + "," + kv("len", v.length()) + "," + kv("i", (int)v) + "," + kv("d2", d2) + "," +
+		// contains() for the probe values of the specification (ScalarTab entries 3, 5, 8, 9, 11, 12, 2)
+		static const int probe[] = { 2, 4, 7, 8, 10, 11, 1 };
+		std::string cont = "[";
+		for (size_t q = 0; q < sizeof probe / sizeof probe[0]; q++) cont += std::string(q ? "," : "") + (v.contains(w.make(SCALARS[probe[q]])) ? "1" : "0");
+		cont += "]";
+		return "{" + kv("ty", (int)v.type()) + ",\"cont\":" + cont + ",\"isn\":" + isn + "," + kv("len", v.length()) + "," + kv("i", (int)v) + "," + kv("d2", d2) + "," +
 		       kv("b", (bool)v ? 1 : 0) + ",\"s\":" + vj::codes(std::string(*s, (size_t)s.length())) + "}";
 	}
 	void check()
